@@ -536,14 +536,16 @@ def orchestrate(mod, tier, seed, only_stage=None):
           f'wall={time.time() - t0:.1f}s')
     for k, st in merged['stage_stats'].items():
         print(f'  stage {k}: {dict(st)}')
-    if ev and rej / max(ev, 1) > getattr(mod, 'MAX_REJECT', 0.2):
-        print(f'HARNESS-ERROR property={pid} too many rejected cases')
-        return 2
     if sigs:
         for sig, v in sigs.items():
             print(f"VIOLATION property={pid} replay={v['replay']} "
                   f"[{sig}] {v['detail'][:300]}")
         return 1
+    if ev and rej / max(ev, 1) > getattr(mod, 'MAX_REJECT', 0.2):
+        # a generator health check: too much was discarded for the run to
+        # count as having held
+        print(f'HARNESS-ERROR property={pid} too many rejected cases')
+        return 2
     return 0
 
 
